@@ -7,6 +7,7 @@ from types import CodeType
 from .mro import sort_types
 from .recode import generate_dependent_dispatch
 from .utils import MISSING, subtler_type
+from .utils import _verif_order
 
 
 class TypeMap(dict):
@@ -45,6 +46,7 @@ class TypeMap(dict):
         for lvl, grp in enumerate(reversed(groups)):
             for cls in grp:
                 handlers = self.entries.get(cls, None)
+                handlers = handlers and _verif_order("handlers", handlers)
                 if handlers:
                     results.update({h: lvl for h in handlers})
 
@@ -161,6 +163,8 @@ class MultiTypeMap(dict):
             )
             for c in candidates
         ]
+
+        candidates = _verif_order("candidates", candidates)
 
         # The sort ensures that if candidate A dominates candidate B, A will
         # appear before B in the list. That's because it must dominate all
